@@ -1,3 +1,4 @@
+import enum
 from functools import wraps
 from typing import Type
 
@@ -92,7 +93,9 @@ def _get_serialize(field, cls):
 
 def _get_constant(constant: Constant):
     def wrapped(_self):
-        return constant()
+        val = constant()
+        # an enum member is written by its name, as Serializer(x).serialize() does
+        return val.name if isinstance(val, enum.Enum) else val
 
     return wrapped
 
